@@ -466,6 +466,12 @@ void carquet_bit_writer_write_bits(carquet_bit_writer_t* writer,
     if (num_bits == 0) return;
     if (num_bits > 32) num_bits = 32;
 
+    /* Up to 55 bits may be pending (the buffer is drained at 56): make room
+     * first when the new bits would not fit into the 64-bit accumulator. */
+    if (writer->buffer_bits + num_bits > 64) {
+        flush_buffer(writer);
+    }
+
     uint32_t mask = num_bits == 32 ? ~0U : (1U << num_bits) - 1;
     writer->buffer |= (uint64_t)(value & mask) << writer->buffer_bits;
     writer->buffer_bits += num_bits;
